@@ -15,7 +15,13 @@ unsigned int UNIT(u_mapped)(ukey_t *d, unsigned long n, ukey_t *q, unsigned long
 VERIF_MAIN {
   const unsigned long n = N;
   unsigned long long ord[N]; ukey_t d[N];
+#ifdef FIXED_DATA
+  /* one concrete data set (stated in the job; long duplicate runs), EVERY query key symbolic */
+  static const unsigned long long fixed_ord[N] = { FIXED_DATA };
+  for (int i = 0; i < N; i++) { ord[i] = fixed_ord[i]; d[i] = FROM_ORD(ord[i]); }
+#else
   for (int i = 0; i < N; i++) { ord[i] = IN(i ? ord[i - 1] : 0, ORD_HI); d[i] = FROM_ORD(ord[i]); }
+#endif
   unsigned long long qo = IN(0, ORD_MAX - 1); ukey_t q = FROM_ORD(qo);
   unsigned long out[8] = {0, 0, 0, 0, 0, 0, 0, 0};
   unsigned int rc = UNIT(u_mapped)(d, n, &q, out);
